@@ -40,7 +40,7 @@ def _write_replay(prop, variant, key, case, violation, seed=None, idx=None, mini
 def _fresh_replay(path, timeout=600):
     """Replay in a fresh interpreter; returns the key it reports (or None)."""
     env = dict(os.environ)
-    for k in ("VSIM_STAGE", "LD_PRELOAD", "ASAN_OPTIONS", "PYTHONMALLOC", "VSIM_BUILD_DIR", "VSIM_VARIANT"):
+    for k in ("VSIM_STAGE", "LD_PRELOAD", "ASAN_OPTIONS", "PYTHONMALLOC", "VSIM_BUILD_DIR", "VSIM_VARIANT", "VSIM_BUILD_DIR_NOACCEL"):
         env.pop(k, None)
     try:
         r = subprocess.run([PYTHON, os.path.join(VERIF_DIR, "vcheck.py"), "replay", path], env=env,
@@ -88,7 +88,7 @@ def obs(args):
 
 def _obs_subprocess(prop, tier, seed, n, workers, hashseed):
     env = dict(os.environ)
-    for k in ("VSIM_STAGE", "LD_PRELOAD", "ASAN_OPTIONS", "PYTHONMALLOC", "VSIM_BUILD_DIR", "VSIM_VARIANT"):
+    for k in ("VSIM_STAGE", "LD_PRELOAD", "ASAN_OPTIONS", "PYTHONMALLOC", "VSIM_BUILD_DIR", "VSIM_VARIANT", "VSIM_BUILD_DIR_NOACCEL"):
         env.pop(k, None)
     env["VSIM_HASHSEED"] = str(hashseed)
     env["VERIF_SEED"] = str(seed)
